@@ -54,6 +54,7 @@ func Probearg(ctx context.Context, s string) error {
 func prep() {}
 
 func report(ctx context.Context, target, arg string) error {
+	fmt.Fprintln(os.Stderr, "PROBE-START")
 	mg.Deps(prep)
 	cwd, _ := os.Getwd()
 	data, err := io.ReadAll(os.Stdin)
@@ -496,14 +497,23 @@ def observe(r, stdin_sent):
             k, _, v = kv.partition(b"=")
             env[k] = v
         words = [js["target"].encode()] + ([base64.b64decode(js["arg"])] if js["target"] == "probearg" else [])
-        pre = []
+        # stderr up to the target's first own line (PROBE-START): the front end and the generated main;
+        # from there to its next own line: mg announcing the dependency
+        pre, dep, stage = [], [], 0
         for line in err.split(b"\n"):
-            if line.rstrip(b"\r") in (b"PROBE-LOG", b"PROBE-ERR"):
+            l = line.rstrip(b"\r")
+            if stage == 0 and l == b"PROBE-START":
+                stage = 1
+            elif stage == 0:
+                pre.append(line)
+            elif stage == 1 and l in (b"PROBE-LOG", b"PROBE-ERR"):
+                stage = 2
                 break
-            pre.append(line)
-        else:
-            pre = None      # the target's stderr markers are not on stderr at all
-        o.update(mode="run", pre=pre, words=words, env=env, origin=js["origin"], built_os=js.get("built_os"), built_arch=js.get("built_arch"), cwd=os.path.realpath(js["cwd"]), verbose=js["verbose"], debug=js["debug"],
+            elif stage == 1:
+                dep.append(line)
+        if stage != 2:
+            pre, dep = None, None      # the target's stderr markers are not on stderr at all
+        o.update(mode="run", pre=pre, dep=dep, words=words, env=env, origin=js["origin"], built_os=js.get("built_os"), built_arch=js.get("built_arch"), cwd=os.path.realpath(js["cwd"]), verbose=js["verbose"], debug=js["debug"],
                  gocmd=base64.b64decode(js["gocmd"]), stdout_on=where,
                  stderr_on="stderr" if re.search(rb"^PROBE-ERR\r?$", err, re.M) else ("stdout" if re.search(rb"^PROBE-ERR\r?$", out, re.M) else None),
                  verbose_log=bool(re.search(rb"^PROBE-LOG\r?$", err + b"\n" + out, re.M)),
@@ -752,10 +762,13 @@ def oracle(cfg, proj, res, conv):
         ann = announce_observable(r, conv)
         if ann is not None and o["pre"] is None:
             bad.append(("stream-wiring", tag + "the target's stderr lines are not on the caller's stderr"))
-        elif ann == "quiet-front" and (len(o["pre"]) > 0) != e_verbose:
+        elif ann == "quiet-front" and ((len(o["pre"]) > 0) != e_verbose if not nowords else (len(o["pre"]) > 0 and not e_verbose)):
+            # (the default target, run for want of a word, is not announced by the generated main - on neither route)
             bad.append(("verbose-announcement", tag + "effective verbose %r, but stderr before the target's own output is %r" % (e_verbose, o["pre"][:3])))
         elif ann == "debug-front" and len(o["pre"]) == 0:
             bad.append(("debug-effect", tag + "effective debug, but nothing on stderr before the target's own output"))
+        if ann is not None and o["dep"] is not None and (len(o["dep"]) > 0) != e_verbose:
+            bad.append(("verbose-announcement", tag + "effective verbose %r, but between the target's start and its next own line (where mg announces the dependency) stderr has %r" % (e_verbose, o["dep"][:3])))
         if o["debug"] != e_debug:
             bad.append(("accessor-debug", tag + "mg.Debug()=%r, effective %r" % (o["debug"], e_debug)))
         if o["gocmd"] != e_gocmd:
@@ -795,6 +808,8 @@ def oracle(cfg, proj, res, conv):
             same = (mo["pre"] == bo["pre"]) if am == "quiet-front" else (len(bo["pre"]) == 0 or mo["pre"][-len(bo["pre"]):] == bo["pre"])
             if not same:
                 diffs.append(("stderr before the target's output", mo["pre"][-3:], bo["pre"][-3:]))
+            if mo.get("dep") != bo.get("dep"):
+                diffs.append(("stderr while the dependency runs", mo.get("dep"), bo.get("dep")))
         for k in ("mode", "verbose", "verbose_log", "debug", "gocmd", "timeout", "text", "words"):
             if k == "text" and mo.get("mode") in ("usage", "rejected"):
                 continue       # the usage text names the program by the base name of its file (cache hash / "mage")
@@ -902,7 +917,7 @@ def coq_case(cfg, proj, res, run, conv, bools):
         ann = announce_observable(run, conv)
         obs = ("{| o_mode := OMode MRun; o_verbose_log := %s; o_announce := %s; o_verbose := %s; o_debug := %s; o_gocmd := %s; o_timeout := %s; o_cwd := %s; o_build := %s; "
                "o_env := %s; o_stdin := %s; o_stdout := %s; o_stderr := %s; o_words := %s |}") % (
-            coq_bool(o["verbose_log"]), "None" if (ann is None or o["pre"] is None) else "(Some %s)" % coq_bool(len(o["pre"]) > 0),
+            coq_bool(o["verbose_log"]), "None" if (ann != "quiet-front" or o["pre"] is None) else "(Some %s)" % coq_bool(len(o["pre"]) > 0),
             coq_bool(o["verbose"]), coq_bool(o["debug"]), cs(o["gocmd"]), coq_Z(o["timeout"]),
             cs(o["cwd"].encode()) if route == "mage" else '""', cs(build.encode()) if route == "mage" else '""',
             coq_list(["(%s, %s)" % (cs(k), coq_opt(cs(o["env"][k])) if k in o["env"] else "None") for k in keys]),
@@ -1027,6 +1042,7 @@ def stdconv(ctx, cfgs):
 
 def run(ctx):
     ctx.prove(["Props/C11.vo", "Run/eval_C11.vo"], extra_props=["Compose_C11_C12_C05"])
+    import extractlib; extractlib.fn_tie(ctx, ['SplitEnv', 'EnvWithGOOS'])   # pure functions translated from the current source, re-proved equal to the models' (tools/notes/Translator.md)
     ctx.trusted_base += [
         "checks/c11.py (project generator, probe target, runner, Coq printer, oracle) + lib/projlib.py (project layout, mage build)",
         "harness/c11conv: strconv.ParseBool / time.ParseDuration / Duration.String of the Go standard library feed the model's parameters",
@@ -1097,7 +1113,7 @@ def run(ctx):
             which[ci] = projs[pi]
     # oracle + Coq cases
     items, item_cfg = [], []
-    dist = {"routes": {}, "modes": {}, "clauses": {}, "v_flag": {}, "debug_flag": {}, "MAGEFILE_VERBOSE": {}, "MAGEFILE_DEBUG": {}, "gocmd": {}, "v_x_var": {}, "debug_x_var": {},
+    dist = {"announcement_observable": {}, "routes": {}, "modes": {}, "clauses": {}, "v_flag": {}, "debug_flag": {}, "MAGEFILE_VERBOSE": {}, "MAGEFILE_DEBUG": {}, "gocmd": {}, "v_x_var": {}, "debug_x_var": {},
             "caller_GOOS_GOARCH": {}, "timeout": {}, "d": {}, "w": {}, "layout": {}, "tail": {}, "stdin": {}, "extras": {}, "echo": {}}
 
     def bump(d, k):
@@ -1141,6 +1157,8 @@ def run(ctx):
         for r in res["runs"]:
             nruns += 1
             bump("routes", r["route"])
+            if r["obs"]["mode"] == "run" and r["obs"].get("timeout") != -1:
+                bump("announcement_observable", "%s: %s" % (r["route"], announce_observable(r, conv) or "not (other writers on that stretch of stderr)"))
             bump("modes", r["obs"]["mode"])
             items.append(coq_case(c, p, res, r, conv, bools if not items else []))
             item_cfg.append((ci, r["route"]))
